@@ -300,6 +300,23 @@ def shard(shard, seed, n):
     return run
 
 
+def shard_enum(shard, nshards, stride, offset):
+    """Bounded-exhaustive: every printer on every one- / two-operator term (vf/enumterms.py)."""
+    import itertools
+    import random
+    from vf import enumterms
+    run = Run(PID)
+    g = G(cfg=CFGS[3], rnd=random.Random(0))
+    idx = 0
+    for t in itertools.chain((x for v in enumterms.depth1().values() for x in v), enumterms.depth2()):
+        idx += 1
+        if idx % nshards != shard or (idx // nshards) % stride != offset % stride:
+            continue
+        check_formula(run, t, g, {})
+        run.cls("enumerated-two-operator-term")
+    return run
+
+
 def main():
     chk = Check(PID, "exploration", RULE, assumptions=[
         "independent reader vf/smtref.py implements the SMT-LIB 2.6 lexicon, parallel let, lexical scoping, strict sorting",
@@ -308,6 +325,7 @@ def main():
         "names containing | or backslash are not generated (SMT-LIB 2.6 cannot spell them)"])
     thorough = chk.tier == "thorough"
     jobs = [(shard, dict(shard=s, seed=chk.seed, n=20000 if thorough else 1000)) for s in range(16)]
+    jobs += [(shard_enum, dict(shard=s, nshards=16, stride=1 if thorough else 16, offset=chk.seed)) for s in range(16)]
     chk.add(run_shards(jobs))
     chk.floor("name-needs-quoting", 2000)
     chk.floor("evaluated", 5000)
